@@ -397,7 +397,13 @@ class Worker:
         """Return the next ready task if one exists, otherwise block."""
         while True:
             if self._ready_task_ids.empty() and len(self._delayed_tasks) > 0:
-                self._add_task(self._delayed_tasks.pop())
+                # The incoming thread may drop delayed tasks (cancel)
+                # between the check above and the pop.
+                try:
+                    delayed_task = self._delayed_tasks.pop()
+                except IndexError:
+                    continue
+                self._add_task(delayed_task)
                 continue
 
             # Critical section
@@ -425,13 +431,14 @@ class Worker:
             if not self._running:
                 return None
 
-            if addr not in self._tasks:
+            task = self._tasks.get(addr)  # type: ignore[assignment]
+
+            if task is None:
                 # When a task is cancelled on the worker it is not removed
                 # from the ready queue because it is much cheaper to just
-                # discard cancelled tasks as they come out.
+                # discard cancelled tasks as they come out. (One lookup: the
+                # incoming thread may cancel it at any moment.)
                 continue
-
-            task = self._tasks[addr]
 
             if (
                 addr in self._cancelled_task_ids
